@@ -32,5 +32,8 @@ def stable_qr(mat):
         # force zero diagonals to have jitter added to them.
         Rdiag_sign[Rdiag_sign == 0] = 1.0
         jitter_diag = 1e-6 * Rdiag_sign * zeroish.to(Rdiag)
-        R = R + torch.diag_embed(jitter_diag)
+        # (R is not square for a matrix with more columns than rows: place the jitter on its main diagonal)
+        jitter = torch.zeros_like(R)
+        jitter.diagonal(dim1=-2, dim2=-1).copy_(jitter_diag)
+        R = R + jitter
     return Q, R
